@@ -527,6 +527,29 @@ impl BigUint {
 #[verifier::external_body]
 pub proof fn lemma_size_bits(n: &BigUint) ensures (n@ as int) < pow2i(0x1000_0000_0000_0000) {}
 
+/// R6: `s.iter().all(|&d| d == b'0')`
+#[verifier::external_body]
+pub fn iter_all_ascii_zero(x: &[u8]) -> (ret: bool)
+    ensures ret == (forall|i: int| 0 <= i < x@.len() ==> x@[i] == 48u8)
+{ unimplemented!() }
+
+/// R6: `v.iter().rev().position(|&d| d != b'9')`: distance from the end of the last entry that is not '9'
+#[verifier::external_body]
+pub fn rposition_not_nine(x: &Vec<u8>) -> (ret: Option<usize>)
+    ensures match ret {
+        Some(c) => c < x@.len() && x@[x@.len() - 1 - c] != 57u8 && (forall|i: int| x@.len() - c <= i < x@.len() ==> x@[i] == 57u8),
+        None => forall|i: int| 0 <= i < x@.len() ==> x@[i] == 57u8,
+    }
+{ unimplemented!() }
+
+/// R2/R6: `s.split_first().unwrap_or((&b'0', &[]))`
+#[verifier::external_body]
+pub fn split_first_or_zero<'a>(s: &'a [u8]) -> (ret: (&'a u8, &'a [u8]))
+    ensures s@.len() > 0 ==> *ret.0 == s@[0] && ret.1@ == s@.drop_first(),
+            s@.len() == 0 ==> *ret.0 == 48u8 && ret.1@.len() == 0
+{ unimplemented!() }
+
+
 // ------------------------------------------------------------------ std
 pub assume_specification<T> [<[T]>::split_last] (s: &[T]) -> (ret: Option<(&T, &[T])>)
     ensures match ret { None => s@.len() == 0, Some((l, rest)) => s@.len() > 0 && *l == s@.last() && rest@ == s@.drop_last() };
